@@ -61,6 +61,18 @@ fn render(v: &Arc<dyn Any + Send + Sync>) -> Option<String> {
     if let Some(x) = a.downcast_ref::<Vec<MultiDimLoad>>() {
         return Some(format!("vmdl:{:?}", x.iter().map(|y| y.load.to_vec()).collect::<Vec<_>>()));
     }
+    if let Some(x) = a.downcast_ref::<Vec<Option<SingleDimLoad>>>() {
+        return Some(format!("vosdl:{:?}", x.iter().map(|y| y.map(|y| y.value)).collect::<Vec<_>>()));
+    }
+    if let Some(x) = a.downcast_ref::<Vec<Option<MultiDimLoad>>>() {
+        return Some(format!("vomdl:{:?}", x.iter().map(|y| y.map(|y| y.load.to_vec())).collect::<Vec<_>>()));
+    }
+    if let Some(x) = a.downcast_ref::<HashMap<vrp_core::models::problem::Job, (usize, usize)>>() {
+        // keyed by job identity: rendered as the sorted multiset of ranges
+        let mut v: Vec<&(usize, usize)> = x.values().collect();
+        v.sort();
+        return Some(format!("jobranges:{v:?}"));
+    }
     if let Some(x) = a.downcast_ref::<HashSet<String>>() {
         let mut v: Vec<&String> = x.iter().collect();
         v.sort();
@@ -221,7 +233,9 @@ fn compare_tours(ctx: &InsertionContext, twin: &InsertionContext, pass_a: &[BTre
         let n0 = out.len();
         diff(&format!("tour {ri}{what}"), &h, &w, out, rule);
         if out.len() > n0 && std::env::var_os("VSIM_DUMP_CACHE").is_some() {
-            crate::say!("CACHE-DIFF tour {ri} total={}\n  have={:?}\n  want={:?}", have.route().tour.total(), h, w_all);
+            crate::say!("CACHE-DIFF tour {ri} total={} ctx(jobs={} req={} ign={} unas={} routes={}) twin(jobs={} req={} ign={} unas={} routes={}) plan_jobs={}\n  have={:?}\n  want={:?}", have.route().tour.total(),
+                ctx.solution.get_jobs_amount(), ctx.solution.required.len(), ctx.solution.ignored.len(), ctx.solution.unassigned.len(), ctx.solution.routes.len(),
+                twin.solution.get_jobs_amount(), twin.solution.required.len(), twin.solution.ignored.len(), twin.solution.unassigned.len(), twin.solution.routes.len(), ctx.problem.jobs.size(), h, w_all);
         }
     }
 }
@@ -258,7 +272,10 @@ pub fn check_handover(ctx: &InsertionContext, stats: &mut CacheStats) -> Vec<(&'
 pub fn check_after_insertion(ctx: &InsertionContext, stats: &mut CacheStats) -> Vec<(&'static str, String)> {
     let mut out = vec![];
     let (twin, pass_a) = recompute(ctx, stats);
-    if tours_signature(&twin) != tours_signature(ctx) {
+    let lists = |c: &InsertionContext| (c.solution.required.len(), c.solution.ignored.len(), c.solution.unassigned.len());
+    if tours_signature(&twin) != tours_signature(ctx) || lists(&twin) != lists(ctx) {
+        // solution level acceptance itself moves jobs between the lists (a marker is still to be promoted, demoted or
+        // dropped from a list it sits in twice): values which depend on the bookkeeping have no canonical value yet
         stats.not_fixpoint += 1;
         return out;
     }
